@@ -189,7 +189,15 @@ func (cs *clientStream) CloseSend() error {
 		})
 	}
 
-	return cs.rw.Write(cs.ctx, &tr)
+	err := cs.rw.Write(cs.ctx, &tr)
+	if err != nil && cs.ctx.Err() != nil {
+		// The read loop cancels cs.ctx when the stream finishes: a write which
+		// lost to that is a half-close on a stream which is over, not a failure.
+		if done, _ := cs.readErrorIfDone(); done {
+			return nil
+		}
+	}
+	return err
 }
 
 // Context returns the context for this stream.
@@ -247,6 +255,13 @@ func (cs *clientStream) SendMsg(m interface{}) error {
 	}
 	err = cs.rw.Write(cs.ctx, &rpc)
 	if err != nil {
+		if cs.ctx.Err() != nil {
+			// As above: the stream may have finished while we were writing, in
+			// which case how it ended is the answer, not the cancellation.
+			if done, rErr := cs.readErrorIfDone(); done {
+				return rErr
+			}
+		}
 		cs.teardown(false)
 		return err
 	}
